@@ -23,7 +23,7 @@ import subprocess
 
 from . import mutants
 from .loader import PKG, AnalysisError, Program
-from .report import Ctx, load_known, match_known
+from .report import Ctx, Undischarged, load_known, match_known
 
 VARIANTS = os.path.join(os.path.dirname(os.path.dirname(os.path.abspath(__file__))), "selftest", "variants")
 
@@ -40,6 +40,8 @@ def _run_rules(mod, prop: str, repo: str):
     ctx = Ctx(prop, prog, "quick")
     try:
         mod.run(ctx)
+    except Undischarged:
+        pass
     except AnalysisError as e:
         return None, f"ANALYSIS-ERROR {e}"
     finally:
